@@ -279,7 +279,10 @@ Definition expected_host (pl : pipeline) (r : rule) : string :=
   | None => b_host (r_backend r)
   end.
 
-(** the oracle for X-Forwarded-Uri is an answer of URL.EscapedPath: a valid, well-formed encoded path *)
+(** the oracle for X-Forwarded-Uri: what extractURL reads from the header — for a
+    value url.Parse accepts, URL.EscapedPath (a valid, well-formed encoded path)
+    and URL.RawQuery (the query as sent, since f446e16); for a value url.Parse
+    rejects, the text before and after the first '?' (since d3f6cd7; C15-F9) *)
 Definition oracle_ok (q : request) : bool :=
   match q_xfu q with Some (p, _) => valid_encoded p && wellformed p | None => true end.
 
@@ -393,3 +396,8 @@ Definition guard_F7 (q : request) : bool :=
 (** C15-F8: tracing is on and the pipeline produced a trace propagation header *)
 Definition guard_F8 (pl : pipeline) (r : rule) : bool :=
   r_tracing r && existsb (fun k => negb (is_nil (line_values k (p_headers pl)))) propagation_names.
+
+(** C15-F9: the view's path comes from a trusted X-Forwarded-Uri that is not a
+    valid well-formed encoded path (url.Parse rejected it and it is used as received) *)
+Definition guard_F9 (q : request) : bool :=
+  negb (is_empty (h_get "X-Forwarded-Uri" (in_headers q))) && negb (oracle_ok q).
